@@ -41,6 +41,9 @@ def project(pid, tag, op, out):
         rst = ["%s:%d:%d" % (s["fl"], s["seq"], s["ack"]) for s in ss if "R" in s["fl"]]
         err = head if re.search(r"refused|reset|aborted|invalid", head) else ""
         return " ".join(rst + [err]).strip()
+    if pid == "C14":
+        # the consequence clause of C14 speaks about all of them
+        return " || ".join(project(q, tag, op, out) for q in ("C01", "C02", "C03", "C04", "C05"))
     if tag == "h":
         return ""
     if pid == "C01":
